@@ -6,13 +6,13 @@ theorem upd_apply {α : Type} (f : Nat → α) (i j : Nat) (v : α) : upd f i v 
 
 macro "inv_auto" h:ident : tactic => `(tactic| (
   obtain ⟨topo, uniq, chanReq, pendReq, waitOk, respWait, highRight, frecvPend, pendLeft, chanLeft, doneOk, chanOut⟩ := $h
-  constructor <;> simp only [upd_apply, effRight, effHigh, AHolder] at * <;> grind))
+  constructor <;> simp only [upd_apply, effRight, effHigh, AHolder, rightAfter] at * <;> grind))
 
 /-- all fields but `waitOk` (whose existential `grind` does not instantiate) -/
 macro "inv_auto'" h:ident : tactic => `(tactic| (
   have hw := AInv.waitOk $h
   obtain ⟨topo, uniq, chanReq, pendReq, waitOk, respWait, highRight, frecvPend, pendLeft, chanLeft, doneOk, chanOut⟩ := $h
-  constructor <;> simp only [upd_apply, effRight, effHigh, AHolder] at * <;> (try grind)))
+  constructor <;> simp only [upd_apply, effRight, effHigh, AHolder, rightAfter] at * <;> (try grind)))
 
 /-- the holder of a channel that is not waiting has nothing outstanding there -/
 theorem AInv.idle_holder {a : AG} (h : AInv a) (i j : Nat) (hi : i < a.n) (hk : (a.pv i).kind ≠ .wait ∨ (a.pv i).resp.isSome)
@@ -115,7 +115,7 @@ theorem ATrans.inv_pend {a : AG} (h : AInv a) (j r : Nat) (rest : List Nat) (hj 
 theorem ATrans.inv_recv {a : AG} (h : AInv a) (i : Nat) (hh : Bool) (nr : Option (Option Nat)) (hi : i < a.n)
     (hresp : (a.pv i).resp = some (hh, nr)) (hgo : ∀ x, nr ≠ some (some x)) :
     AInv { a with pv := upd a.pv i { a.pv i with resp := none, highSome := hh, kind := .run,
-                                                 right := match nr with | some x => x | none => (a.pv i).right } } := by
+                                                 right := rightAfter nr (a.pv i).right } } := by
   inv_auto h
 
 theorem ATrans.inv_resend {a : AG} (h : AInv a) (i j : Nat) (hh : Bool) (hi : i < a.n)
